@@ -107,7 +107,7 @@ def replay_files(ctx, mod, files, report_ok):
                 rec = json.load(f)
             spec = rec['spec'] if isinstance(rec, dict) and 'spec' in rec else rec
             # every replay runs in its own forked child: a case that takes the interpreter down is reported, not suffered
-            out = runner._isolated(lambda sp: mod.execute(ctx, sp))(spec)
+            out = runner._isolated(runner._fdwatched(lambda sp: mod.execute(ctx, sp)))(spec)
         except Exception:
             print(f"HARNESS-ERROR: replay of {path} failed:\n{traceback.format_exc()}")
             ctx.cleanup()
